@@ -340,6 +340,12 @@ def specs(rng):
     pos_data = sim.generate_position_measurements(traj.iloc[10::20], 1, 0)
     vel_data = sim.generate_ned_velocity_measurements(traj.iloc[10::20], 1, 0)
     bod_data = sim.generate_body_velocity_measurements(traj.iloc[10::20], 1, 0)
+    def beyond(d):
+        # the receiver logged before the INS record starts and after it ends: samples outside the processed span (must be ignored, not removed)
+        ext = pd.concat([d.iloc[:1].set_axis([-0.75]), d, d.iloc[-1:].set_axis([99.5])])
+        ext.index.name = d.index.name
+        return ext
+    pos_data, vel_data, bod_data = beyond(pos_data), beyond(vel_data), beyond(bod_data)
     tm = traj.index[10]
     add('measurements.Measurement', Call('ctor', lambda d: measurements.Measurement(d).data, [pos_data]))
     add('measurements.Measurement.compute_matrices', Call('abstract', lambda: _raises(lambda: measurements.Measurement(pos_data).compute_matrices(tm, pr, em3)), []))
